@@ -95,6 +95,15 @@ def main(argv: List[str]) -> int:
                     )
     if n1 == 0:
         run.crash("no table obligation generated")
+    # ---- the rule is per class, also for a user subclass of a generated class (same name: tables keyed by class name or by identity)
+    from lib.sweeps import subclass_probe
+
+    sub_bad = 0
+    for pr in subclass_probe(live, mm, decls):
+        if pr["kind"] in ("serialisation", "raises"):
+            sub_bad += 1
+            if sub_bad <= 12:
+                run.violation(f"subclass:{pr['class']}:{pr['kind']}", pr["detail"], {"input": pr["input"], "replay": f"Sub = type('{pr['class']}', (lsprotocol.types.{pr['class']},), {{}}); converter.unstructure(converter.structure(<input>, Sub))"}, True)
     run.assume(
         "cattrs make_dict_unstructure_fn skips a field iff its override has omit_if_default and the value equals the default (assumed row, exercised by the toggle sweep)",
         "membership in the module-level table _SPECIAL_PROPERTIES is an uninterpreted predicate in the VCs; its extension is checked attribute by attribute against the metamodel rule",
